@@ -185,6 +185,28 @@ def helper_mutations(repo: Repo, m: ModuleInfo, fn: ast.FunctionDef, modes: Dict
 
 
 def run(repo: Repo, tier: str, res: CheckResult, seed: int = 0) -> None:
+    closure_findings(repo, res)
+    container_coercers(repo, res)
+    memoised_runtime_functions(repo, res)
+    factory_called_at_build(repo, res)
+    from .. import genprog
+    genprog.c20_checks(repo, tier, res, seed)
+    res.assumptions = list(ASSUMPTIONS)
+
+
+def stateful_closures(repo: Repo, res: CheckResult, prop: str, rule: str, consequence: str) -> None:
+    """A loader / dumper / coercer closure that modifies a container created ONCE by its factory keeps state between calls
+    (an accumulator hoisted out of the call, a "last hit" table). The inventory is C20's (FRESH.hoisted-container-filled); the
+    same construct breaks other properties, which report it under their own name with their own consequence."""
+    sub = CheckResult("C20")
+    closure_findings(repo, sub)
+    res.evaluated(f"stateful-closures:{prop}", True)
+    for f in sub.findings:
+        if f.rule == "FRESH.hoisted-container-filled":
+            res.add(Finding(prop, rule, f.file, f.qualname, f.construct, f.message + " -- " + consequence, f.line))
+
+
+def closure_findings(repo: Repo, res: CheckResult) -> None:
     R = Resolver(repo)
     inv = Inventory(repo, R)
     n_closures = 0
@@ -214,12 +236,6 @@ def run(repo: Repo, tier: str, res: CheckResult, seed: int = 0) -> None:
         mutation_findings(m, fn, qual, role, res)
         freshness_findings(repo, R, m, fn, qual, role, res)
     res.count("PURE.closures", n_closures, 90)
-    container_coercers(repo, res)
-    memoised_runtime_functions(repo, res)
-    factory_called_at_build(repo, res)
-    from .. import genprog
-    genprog.c20_checks(repo, tier, res, seed)
-    res.assumptions = list(ASSUMPTIONS)
 
 
 def freshness_findings(repo: Repo, R: Resolver, m: ModuleInfo, fn: ast.FunctionDef, qual: str, role: str, res: CheckResult) -> None:
